@@ -651,6 +651,7 @@ def gen() -> None:
         "_immutable_error", "ImmutableListMixin", ("ImmutableDictMixin", idm), ("ImmutableMultiDictMixin", imm), ("ImmutableHeadersMixin", ihm)], holes)
     text += "# datastructures/file_storage.py\n" + pin_items(fs, ["FileMultiDict"], holes)
     text += "# wrappers/request.py\n" + "## Request.__init__\n" + px.skeleton(_norm(_method(px.find_class(wr, "Request"), "__init__")), holes) + "\n"
+    text += "# exceptions.py\n" + pin_items(px.load("exceptions.py"), ["BadRequestKeyError"], holes)
     px.check_pin("C08", "c08_containers.txt", text, "a container method the C08 model or its oracles stand for")
 
 
@@ -2174,6 +2175,68 @@ def mapping_value_kinds(chk, ds, R):
     chk.count("mapping value kinds x entry points", len(kinds) * (len(md_entry) + 5))
 
 
+def falsy_key_checks(chk, ds):
+    """failing lookups with keys that are falsy ('' 0 False b'' () 0.0 frozenset()) next to an ordinary key, in the empty dict,
+    next to another key, and in the state where the key holds an emptied list: the exception is BadRequestKeyError (a KeyError)
+    and carries the key, args == (key,), exactly as dict's own KeyError does - the reference"""
+    from werkzeug.exceptions import BadRequestKeyError
+    keys = ["", 0, False, b"", (), 0.0, frozenset(), "k", 7]
+
+    def outcome(fn):
+        try:
+            return ("returned", fn())
+        except Exception as e:  # noqa: BLE001
+            return (type(e), e.args)
+    n = 0
+    for k in keys:
+        for cname in ("MultiDict", "FileMultiDict", "ImmutableMultiDict", "CombinedMultiDict"):
+            cls = getattr(ds, cname)
+
+            def state(kind):
+                base = ds.MultiDict()
+                if kind == "emptied":
+                    base.setlist(k, [])
+                elif kind == "other key":
+                    base.add("other", "1")
+                if cname == "CombinedMultiDict":
+                    return ds.CombinedMultiDict([base])
+                return base if cname == "MultiDict" else cls(base) if kind != "emptied" or cname == "ImmutableMultiDict" else _emptied(cls, k)
+            probes = [("d[k]", lambda d: d[k], ("missing", "other key", "emptied"))]
+            if cname in ("MultiDict", "FileMultiDict"):
+                probes += [("d.pop(k)", lambda d: d.pop(k), ("missing", "other key", "emptied")),
+                           ("d.popitem()", lambda d: d.popitem(), ("emptied",))]
+            for label, op, kinds in probes:
+                for kind in kinds:
+                    if kind == "emptied" and cname in ("ImmutableMultiDict",):
+                        continue        # its constructor drops an empty row
+                    n += 1
+                    got = outcome(lambda: op(state(kind)))
+                    ref = outcome(lambda: {}[k])
+                    if got[0] is not BadRequestKeyError or got[1] != ref[1] or type(got[1][0]) is not type(k):
+                        chk.fail("keyerror-args", f"{cname} ({kind}) {label} with the key {k!r}: "
+                                 + (f"raised {got[0].__name__} with args {got[1]!r}" if got[0] != "returned" else f"returned {got[1]!r}")
+                                 + f"; a failing lookup raises BadRequestKeyError with args {ref[1]!r} (dict: {ref[0].__name__}{ref[1]!r})",
+                                 {"kind": "falsy-key", "class": cname, "state": kind, "op": label, "key": repr(k)})
+        # the non-raising companions
+        d = _emptied(ds.MultiDict, k)
+        if d.poplist(k) != [] or ds.MultiDict().poplist(k) != [] or _emptied(ds.MultiDict, k).popitemlist() != (k, []) \
+                or ds.MultiDict().get(k) is not None or ds.MultiDict().getlist(k) != [] or _emptied(ds.MultiDict, k).pop(k, "dflt") != "dflt":
+            chk.fail("keyerror-args", f"poplist / popitemlist / get / getlist / pop(k, default) with the key {k!r} do not return their defaults",
+                     {"kind": "falsy-key", "op": "defaults", "key": repr(k)})
+    for label, fn in (("Headers()['']", lambda: ds.Headers()[""]), ("Headers().pop('')", lambda: ds.Headers().pop("")),
+                      ("Headers([('a','1')])['']", lambda: ds.Headers([("a", "1")])[""])):
+        got = outcome(fn)
+        if got[0] is not BadRequestKeyError or got[1] != ("",):
+            chk.fail("keyerror-args", f"{label}: {got!r}, expected BadRequestKeyError with args ('',)", {"kind": "falsy-key", "op": label, "key": "''"})
+    chk.count("failing lookups with falsy keys (oracle only)", n)
+
+
+def _emptied(cls, k):
+    d = cls()
+    d.setlist(k, [])
+    return d
+
+
 def heap_shape_checks(chk, ds):
     """the four primitives of the heap model (C08/ProofsCopy.v) on the implementation, by object identity of the rows:
     add appends to the row in place, __setitem__ / setlist / setdefault bind a newly built row (never the caller's list),
@@ -2765,6 +2828,7 @@ def run(chk: Check) -> None:
                      {"kind": "md", "init": init, "ops": []})
     request_headers_view(chk, rng, 60 if quick else 1500)
     mapping_value_kinds(chk, ds, R)
+    falsy_key_checks(chk, ds)
     unicode_key_checks(chk, ds, rng, 400 if quick else 8000)
     heap_shape_checks(chk, ds)
     mutable_value_checks(chk, ds, rng, 40 if quick else 800)
